@@ -314,6 +314,38 @@ def actor_exits(ctx):
         # does every path through the arm leave the loop?
         stay = [e for e in a.edges if e.src in (arm.region | {arm.edge.dst}) and e.dst in blks and e.dst not in arm.region and e.dst != arm.edge.dst]
         arm_out_of_loop = not (arm.region & blks) or not stay
+        # an actor that owns a running build may not leave right after telling it to stop: the build future (which kills and reaps the shell when it sees the
+        # cancellation) must be driven to its end first - through the select on a later turn of the loop, or by awaiting it in the arm. Dropping it leaves the shell
+        # running with nobody to kill it.
+        cancels0 = [s for s in send_calls(a) if tyname(s[2]) == "BuildCancellationMessage" and s[0] in arm.region]
+        if cancels0:
+            polls0 = {x.into_bb for x in awaits(a) if x.callee and x.callee.endswith("poll_fn") and x.into_bb in blks}
+            build_waits = {x.ready_bb for x in awaits(a) if x.ready_bb is not None and x.fut_local is not None and x.into_bb in arm.region and
+                           re.search(r"Fuse<|IncrementalRunResult", a.locals[x.fut_local]["ty"])}
+            # (a way out that is taken only when *no* build is in flight - `if terminating && !build_ongoing { break }` at the top of the loop - is not
+            # a way out for the build that was just told to stop)
+            def marker_call(d, which):
+                return d[0] == "call" and d[1].endswith("::" + which) and "BuildCancellationMessage" in callee_decl(a.term(d[3]))
+            no_build = guard_region(a, lambda d: marker_call(d, "is_some"), False) | guard_region(a, lambda d: marker_call(d, "is_none"), True)
+            for e in a.edges:
+                if e.label and e.label[0] == "variant" and e.label[2] == ("None",) and e.label[3] and "BuildCancellationMessage" in str(e.label[3].get("ty")):
+                    no_build |= a.dominated_by_edge(e)
+            # ... also when that fact is handed over as a variant of a local enum built only there (`None => LoopControl::Break`)
+            for (abb, ast) in list(a.aggregates()):
+                rv = ast["rv"]
+                if abb not in no_build or rv.get("adt") not in ctx.f.adts or not ctx.f.adts[rv["adt"]]["enum"] or rv["adt"].startswith("std::"):
+                    continue
+                nm_, var_ = rv["adt"].split("::")[-1], rv["variant"]
+                if all(bb2 in no_build for (bb2, _) in a.aggregates(nm_, var_)):
+                    no_build |= variant_region(a, nm_, var_)
+            no_build -= {c0[0] for c0 in cancels0}
+            leaks = []
+            for c0 in cancels0:
+                reach0 = (a.reach_from(c0[0], avoid=tuple(build_waits | polls0 | no_build)) | {c0[0]}) - build_waits - polls0 - no_build
+                # (leaving = reaching the end of the actor without blocking in the select again and without having awaited the build)
+                leaks += [x for x in reach0 if a.term(x)["k"] == "return"]
+            ctx.check(not leaks, f"{lab}/build-driven-to-its-end", [site(a, c0[0]) for c0 in cancels0],
+                      "on termination the actor tells the running build to stop and leaves at once: the build future is dropped before it killed and reaped the shell, which outlives zinoma")
         if arm_out_of_loop:
             ctx.ok(f"{lab}/terminates", [a.loc(arm.edge.dst)], "termination arm leaves the loop on every path")
             continue
